@@ -3,28 +3,102 @@ A: TLC design check of tla/Output.tla (closers, senders, serve shutdown, error p
 B/C: systematic schedule exploration of the REAL session under the single-runner scheduler
 (gates: verifYield hooks + transport reads/writes), every schedule's trace validated by TLC."""
 import json
+from concurrent.futures import ThreadPoolExecutor
 import verif
 import outcommon as oc
 
 INVS = ["C10_OneCloseTag", "C10_NothingAfterClose", "C10_ClosedIffTag", "C10_SendersRefused",
-        "C10_BothClosedAfterServe", "C10_DeadlineKept", "C10_ReplacedDeadlineInert", "C05_Contiguous", "C05_NoStrayWrites", "C05_WritesUnderLock"]
+        "C10_BothClosedAfterServe", "C10_ServeReturnsForCause", "C10_ServeRetTellsCause", "C10_DeadlineKept", "C10_ReplacedDeadlineInert",
+        "C05_Contiguous", "C05_NoStrayWrites", "C05_WritesUnderLock", "C05_StaleHandleDead"]
 
 
-DEVS = [("WriteAfterClose", "C10_NothingAfterClose"), ("CloseTwice", "C10_OneCloseTag"), ("TxDisarmsDeadline", "C10_DeadlineKept"), ("ReplacedDeadlineFires", "C10_ReplacedDeadlineInert")]
+DEVS = [("WriteAfterClose", "C10_NothingAfterClose"), ("CloseTwice", "C10_OneCloseTag"), ("TxDisarmsDeadline", "C10_DeadlineKept"), ("ReplacedDeadlineFires", "C10_ReplacedDeadlineInert"),
+        ("ServeCachesDone", "C10_ServeReturnsForCause"), ("WrappedEOFIsPeerClose", "C10_ServeRetTellsCause")]
+# deviations of the stale-handle part (checked in its own configuration, oc.MC_STALE_CFG)
+STALE_DEVS = [("StaleHandleIsLive", "C05_WritesUnderLock")]
+
+SHUTDOWN_POINTS = ("closeinput.enter", "close.enter", "senderr.enter")
+
+
+def explain(trace, hw):
+    """What the rejected event of a trace means in terms of C10, read off the events before it (a description for the
+    VIOLATION line - the verdict is TLC's). Empty if the case is not one of those spelled out here."""
+    ev = [e for e in trace if e["_line"] == hw]
+    if not ev:
+        return ""
+    ev = ev[0]
+    pre = [e for e in trace if e["_line"] < hw]
+    # a closed token writer used again
+    stale = [e for e in pre if e["ev"] == "call" and e.get("k") in ("stx", "sclose")]
+    if stale:
+        who = stale[-1]["p"]
+        lastcall = [e for e in pre if e["ev"] == "call" and e.get("p") == ev.get("p")]
+        if ev["ev"] == "write" and lastcall and lastcall[-1].get("k") in ("stx", "sclose"):
+            return ("bytes reach the transport through a token writer that %s had CLOSED before (%s) - no lock held, in the middle of whatever is "
+                    "being transmitted (C05_WritesUnderLock, C05_StaleHandleDead): " % (ev["p"], lastcall[-1]["kind"]))
+        if ev["ev"] == "ret" and ev.get("k") == "stx" and ev.get("class") == "nil":
+            return "writing through a closed token writer succeeds instead of failing with io.EOF (C05_StaleHandleDead): "
+        if ev["ev"] == "ret" and ev.get("k") == "tx" and ev.get("p") != who and ev.get("class") not in ("nil", "closed"):
+            return ("the transmit call of %s fails (%s) in the middle of its element after %s used a token writer it had closed before (%s): the dead "
+                    "handle acts on the CURRENT holder of the output lock: " % (ev["p"], ev.get("err"), who, stale[-1]["kind"]))
+    serving = any(e["ev"] == "call" and e.get("k") == "serve" for e in pre) and not any(e["ev"] == "serve_ret" for e in pre)
+    shutdown = (ev["ev"] == "hook" and ev.get("p") == "s" and ev.get("point") in SHUTDOWN_POINTS) or ev["ev"] == "serve_ret"
+    if not (serving and shutdown):
+        return ""
+    fed = [e["item"] for e in pre if e["ev"] == "peer"]
+    handled = sum(1 for e in pre if e["ev"] == "handler")
+    hl = [e for e in pre if e["ev"] == "handler"]
+    if hl and hl[-1]["item"].startswith("stanza_he") and not any(i in ("close", "streamerr", "eof") for i in fed) and (
+            ev["ev"] == "serve_ret" and ev.get("class") == "nil" or ev.get("point") in ("closeinput.enter", "close.enter")):
+        nxt = [e for e in trace if e["_line"] > hw and e["ev"] == "serve_ret"]
+        return ("Serve shuts down as after the peer's closing tag (no stream error prepared: %s%s) although the peer's stream is open: what happened is "
+                "that the handler returned the error %r (%s) - a handler's error is never the end of the peer's stream (C10_ServeRetTellsCause): " % (
+                    ev.get("point") or "serve_ret", ", Serve then returns %s" % nxt[0].get("class") if nxt else "", hl[-1].get("err", "io.EOF"), hl[-1]["item"]))
+    dlev = [e["ev"] for e in pre if e["ev"].startswith("deadline")]
+    cause = (any(i in ("close", "streamerr", "eof", "stanza_herr") for i in fed) or "deadline" in dlev
+             or any(e["ev"] == "ret" and e.get("p") == "s" and e.get("class") in ("closed", "other") for e in pre))
+    if cause:
+        return ""
+    what = "returns %s" % ev.get("class") if ev["ev"] == "serve_ret" else "stops reading and shuts down (%s)" % ev.get("point")
+    return ("Serve %s after %d handled element(s) although the peer has not closed its stream (peer items so far: %s), no stream error "
+            "was exchanged and the close deadline has not passed (deadline events so far: %s) - C10_ServeReturnsForCause; "
+            "elements the peer sends later are never handled: " % (what, handled, fed, dlev or "none"))
 
 
 def run(ctx, focus="close"):
     quick = ctx.tier == "quick"
     # quick: two processes over a reduced program / script set; thorough: the full sets (two processes:
     # ~8 M states; three processes do not finish in minutes and are left to the schedule exploration)
-    mc = ctx.model_check("MCOutput", oc.MC_CFG % ({"procs": '{"a", "s"}', "programs": "ProgramsQuick", "scripts": "PeerScriptsQuick"} if quick
-                                                 else {"procs": '{"a", "s"}', "programs": "ProgramsMC", "scripts": "PeerScriptsMC"}), INVS, timeout=2400)
-    # non-vacuity: each named deviation of the specification must break the property it is meant for
-    for dev, prop in DEVS:
-        bad = ctx.tlc("MCOutput", (oc.MC_CFG % {"procs": '{"a", "s"}', "programs": "ProgramsQuick", "scripts": "PeerScriptsQuick"}).replace(
-            "Dev = {}", 'Dev = {"%s"}' % dev), name="MCOutput_" + dev, timeout=900)
-        if bad.rc == 0 or prop not in bad.out:
-            raise verif.Undecided("design check is vacuous: deviation %s does not break %s" % (dev, prop))
+    # (pipeline A runs next to the exploration of the real code - they do not depend on each other; its result is
+    # collected, and a failure raised, before any verdict on the code)
+    def design():
+        qcfg = oc.MC_CFG % {"procs": '{"a", "s"}', "programs": "ProgramsQuick", "scripts": "PeerScriptsQuick"}
+        with ThreadPoolExecutor(4) as ex:
+            fmc = ex.submit(ctx.model_check, "MCOutput", qcfg if quick else oc.MC_CFG % {"procs": '{"a", "s"}', "programs": "ProgramsMC", "scripts": "PeerScriptsMC"},
+                            INVS, timeout=2400, workers=max(2, verif.NCPU // 2), heap="4g" if quick else "12g")
+            fst = ex.submit(ctx.model_check, "MCOutput", oc.MC_STALE_CFG, ["C05_StaleHandleDead", "C05_Contiguous", "C05_WritesUnderLock", "C05_NoStrayWrites"],
+                            name="MCOutput_stale", timeout=900, workers=2, heap="2g")
+            # non-vacuity: each named deviation of the specification must break the property it is meant for
+            fdev = [(dev, prop, ex.submit(ctx.tlc, "MCOutput", cfg.replace("Dev = {}", 'Dev = {"%s"}' % dev), name="MCOutput_" + dev, timeout=900, workers=2, heap="2g"))
+                    for cfg, devs in ((qcfg, DEVS), (oc.MC_STALE_CFG, STALE_DEVS)) for dev, prop in devs]
+            mc, st = fmc.result(), fst.result()
+            for dev, prop, f in fdev:
+                bad = f.result()
+                if bad.rc == 0 or prop not in bad.out:
+                    raise verif.Undecided("design check is vacuous: deviation %s does not break %s" % (dev, prop))
+        mc.stale_states = st.distinct
+        return mc
+    pool = ThreadPoolExecutor(1)
+    fut = pool.submit(design)
+    try:
+        files, summ, scen = drive(ctx, focus, quick)
+    finally:
+        pool.shutdown(wait=True)
+    mc = fut.result()
+    judge(ctx, mc, files, summ, scen, quick)
+
+
+def drive(ctx, focus, quick):
     if ctx.replay:
         case = json.load(open(ctx.replay))["case"]
         scen = [case["scenario"]]
@@ -32,6 +106,22 @@ def run(ctx, focus="close"):
     else:
         scen = oc.scenarios(ctx.tier, focus)
         files, summ = oc.explore(ctx, scen, maxpre=1 if quick else 2)
+    return files, summ, scen
+
+
+def explore_one(ctx, scenario, choices):
+    return oc.explore(ctx, [scenario], maxpre=3, shards=1, choices=choices)
+
+
+def judge(ctx, mc, files, summ, scen, quick):
+    for c in summ["crashes"][:10]:
+        ctx.violation("the library brought the whole process down (%s) in a schedule of legitimate calls: %s; %s" % (
+            c["fatal"], json.dumps(c["case"])[:400], " | ".join(l.strip() for l in c["stack"].splitlines() if "mellium.im/xmpp" in l)[:400]),
+            {"family": "output", "scenario": c["case"]["scenario"], "choices": c["case"]["choices"], "fatal": c["fatal"], "stack": c["stack"]})
+    if not files:
+        ctx.write_evidence("model_checking", {"states": mc.distinct, "transitions": mc.generated, "traces_validated_against_impl": 0,
+                                              "samples": [c["case"] for c in summ["crashes"][:2]], "evaluations": summ["evaluations"], "distinct_nontrivial": 2})
+        return
     tr, meta = oc.merge_traces(ctx, files)
     rej, r = oc.validate(ctx, tr, ["a", "b", "c", "s"])
     ctx.log("explored %d schedules of %d scenarios (%d distinct traces, %d events); TLC validated them in %.1fs: %d rejected" % (
@@ -39,21 +129,35 @@ def run(ctx, focus="close"):
     if summ["stuck"]:
         ctx.notes.append("%d schedules ended with every goroutine blocked (reported as rejected traces)" % summ["stuck"])
     trs = verif.split_traces(verif.read_ndjson(tr)) if rej else {}
+    # a schedule that ended with every goroutine "blocked" is a stall only if it does so again: the scheduler decides
+    # that everybody is blocked by polling goroutine states, which under heavy load can be wrong once
+    nstall = 0
+    for t, hw in sorted(rej.items()):
+        if meta[t].get("note") == "stuck" and not ctx.replay and nstall < 5:
+            nstall += 1
+            f2, s2 = explore_one(ctx, meta[t]["scenario"], meta[t]["choices"])
+            tr2, meta2 = oc.merge_traces(ctx, f2, name="out-confirm-%d.ndjson" % t)
+            rej2, _ = oc.validate(ctx, tr2, ["a", "b", "c", "s"])
+            if not rej2 and not s2["crashes"]:
+                ctx.notes.append("schedule %s of %s ended with every goroutine blocked once and ran to its end when repeated: unreproduced stall, no verdict" % (
+                    meta[t]["choices"], json.dumps(meta[t]["scenario"])))
+                del rej[t]
     for t, hw in sorted(rej.items())[:40]:
         ev = [e for e in trs[t] if e["_line"] == hw]
-        ctx.violation("schedule of the real session is not a behaviour of Output.tla: %s rejected at %s" % (
-            json.dumps(meta[t])[:300], json.dumps(ev[0] if ev else None)[:200]),
+        ctx.violation("%sschedule of the real session is not a behaviour of Output.tla: %s rejected at %s" % (
+            explain(trs[t], hw), json.dumps(meta[t])[:300], json.dumps(ev[0] if ev else None)[:200]),
             {"family": "output", "scenario": meta[t]["scenario"], "choices": meta[t]["choices"], "trace": trs[t],
              "rejected_line": hw, "rejected_event": ev[0] if ev else None})
-    nself = selftest(ctx, tr) if not ctx.replay and not rej else 0
+    nself = selftest(ctx, tr) if not ctx.replay and not rej and not summ["crashes"] else 0
     ctx.write_evidence("model_checking", {
         "states": mc.distinct, "transitions": mc.generated,
         "traces_validated_against_impl": summ["traces"], "schedules_run": summ["evaluations"],
         "scenarios": len(scen), "trace_events": summ["events"], "trace_states": r.distinct,
         "preemption_bound": 1 if quick else 2, "rejected": len(rej),
-        "binding_selftest_mutants_rejected": nself, "deviations_shown_to_break_properties": len(DEVS),
+        "binding_selftest_mutants_rejected": nself, "deviations_shown_to_break_properties": len(DEVS) + len(STALE_DEVS),
+        "states_stale_handle_configuration": getattr(mc, "stale_states", 0),
         "samples": summ["samples"][:2],
-        "rule": "scenarios = programs of Close / transmit calls (all entry points) for 1-3 goroutines, optionally a served session with a scripted peer (stanza, handler reply, handler error, stream error, close); schedules = depth-first enumeration of gate-level interleavings of the real code with a pre-emption bound; a trace is distinct if its event sequence differs",
+        "rule": "scenarios = programs of Close / transmit calls (all entry points) for 0-3 goroutines, optionally a served session with a scripted peer (stanza, handler reply, handler error, stream error, close) and the application's SetCloseDeadline as an event of the script (before Serve starts or WHILE it is running, followed by k >= 1 more elements of the peer and only then by the peer's close / a stream error / a handler error / the deadline passing / the end of the transport: Serve must go on until one of these - C10_ServeReturnsForCause, C10_ServeRetTellsCause); handler errors of every kind (plain, wrapping io.EOF, io.ErrUnexpectedEOF, stanza.Error, context error, stream.Error, wrapped stream.Error, bare io.EOF) while the peer's stream stays open: never the end of the peer's stream, Serve returns nil only after the peer's close; closed token writers used again (Close once more, tokens written through the dead handle) while another goroutine or a handler's reply is in the middle of its element (C05_StaleHandleDead; two pre-emptions in those scenarios); schedules = depth-first enumeration of gate-level interleavings of the real code with a pre-emption bound; a trace is distinct if its event sequence differs",
     }, assumptions=["gate granularity: goroutines are interleaved at verifYield hooks, transport reads/writes and Go blocking primitives, not at every instruction",
                     "blocked-goroutine detection via runtime.Stack wait states"])
 
@@ -81,6 +185,14 @@ def selftest(ctx, trace):
     if r:
         m[r[0]]["class"] = "closed"
         muts.append(("tx return class flipped", m))
+    # Serve's reason to return taken away: the peer's close is struck from a trace in which Serve returned nil after it
+    for t, tr in trs.items():
+        evs2 = [{k: v for k, v in e.items() if k != "_line"} for e in tr]
+        pc = [i for i, e in enumerate(evs2) if e["ev"] == "peer" and e.get("item") == "close"]
+        if pc and any(e["ev"] == "serve_ret" and e.get("class") == "nil" for e in evs2) and not any(e["ev"].startswith("deadline") for e in evs2):
+            del evs2[pc[0]]
+            muts.append(("Serve returns nil without the peer's close", evs2))
+            break
     p = ctx.path("selftest.ndjson")
     line = 0
     with open(p, "w") as f:
